@@ -2,6 +2,8 @@ import EaselModel.Generated.Alphabets
 import EaselModel.Alphabet.RevcompLemmas
 import EaselModel.Alphabet.ScoreLemmas
 import EaselModel.Alphabet.CustomLemmas
+import EaselModel.Alphabet.CatLemmas
+import EaselModel.Alphabet.SqLemmas
 /-! # C08 — property theorems (statements + glue only; lemmas live in Alphabet/*.lean)
 
 `G.dna`, `G.rna`, `G.amino`, `G.coins`, `G.dice` are the tables dumped from the code under check on this run
@@ -153,6 +155,45 @@ theorem revcomp_involutive (a : Alphabet) (comp : List Nat) (hc : a.complement =
     ∃ d', a.revcomp (mkDsq codes) n = .ok (some d') ∧ a.revcomp d' n = .ok (some (mkDsq codes)) :=
   revcomp_twice a comp hc hw (mkDsq codes) n (by simp [mkDsq]; omega)
     (fun i h1 h2 => mkDsq_valid codes _ hv i h1 (by omega))
+
+/-! ## appending (`esl_abc_dsqcat`, used by every sequence-file reader) and the `esl_sq` conversions -/
+
+/-- `esl_abc_dsqcat_noalloc` with an input map whose entries are codes ≤ 127, ILLEGAL or IGNORED: keeps the old residues,
+    appends the code of every non-ignored byte (`inmap[0]` for an illegal or 8-bit byte), terminates with a sentinel, returns
+    `eslEINVAL` iff some byte was illegal, and never raises the eslEINCONCEIVABLE exception -/
+theorem dsqcat_spec (inmap : List Nat) (h : InmapClean inmap) (codes s : List Nat) :
+    dsqcatNoalloc inmap (mkDsq codes) codes.length s =
+      .ok (if s.all (catOK inmap) then .ok else .einval, mkDsq (codes ++ s.filterMap (catCode inmap)),
+           codes.length + (s.filterMap (catCode inmap)).length) :=
+  dsqcatNoalloc_spec inmap h codes s
+
+/-- with the input map a sequence reader derives from an alphabet (`inmap[0] := unknown`), appending a NUL-free line is
+    exactly digitising it: same codes as `esl_abc_Digitize`, same status -/
+theorem dsqcat_appends_digitization (a : Alphabet)
+    (hclean : ∀ c, c < 128 → a.inmapAt c < a.Kp ∨ a.inmapAt c = ILLEGAL ∨ a.inmapAt c = IGNORED)
+    (hKp : a.Kp ≤ 128) (hlen : a.inmap.length = 128) (codes s : List Nat) (hnul : ∀ c ∈ s, c ≠ 0) :
+    dsqcatNoalloc (a.inmap.set 0 a.unknown) (mkDsq codes) codes.length s =
+      .ok ((a.digitize s).1, mkDsq (codes ++ s.filterMap a.code), codes.length + (s.filterMap a.code).length) :=
+  dsqcat_is_digitize a hclean hKp hlen codes s hnul
+
+/-- the hypotheses of `dsqcat_appends_digitization` hold for the built-in alphabets -/
+theorem std_inmap_clean :
+    ∀ a ∈ [G.dna, G.rna, G.amino, G.coins, G.dice], a.Kp ≤ 128 ∧ a.inmap.length = 128 ∧
+      ∀ c, c < 128 → a.inmapAt c < a.Kp ∨ a.inmapAt c = ILLEGAL ∨ a.inmapAt c = IGNORED := by decide +kernel
+
+/-- the hand-written `switch` of text-mode `esl_sq_ReverseComplement` agrees, character by character, with the digital
+    complement tables of the DNA and RNA alphabets -/
+theorem sq_text_complement_table :
+    (∀ comp ∈ G.dna.complement, Sq.TextCompOK G.dna comp) ∧ (∀ comp ∈ G.rna.complement, Sq.TextCompOK G.rna comp) := by
+  decide +kernel
+
+/-- … hence for every text sequence over characters the switch knows, reverse-complementing in text mode and digitising
+    gives the digital sequence whose codes are the reversed complemented codes (= `esl_abc_revcomp`, `revcomp_spec`) -/
+theorem sq_text_revcomp_agrees (a : Alphabet) (comp : List Nat) (h : Sq.TextCompOK a comp) (s : List Nat)
+    (hs : ∀ c ∈ s, c < 128 ∧ (Sq.compChar c).isSome = true) :
+    (Sq.revcompText s).1 = .ok ∧
+    a.digitize (Sq.revcompText s).2 = (.ok, mkDsq ((s.filterMap a.code).reverse.map (compAt comp))) :=
+  Sq.text_revcomp_digitize a comp h s hs
 
 /-! ## custom alphabets -/
 
